@@ -29,7 +29,12 @@ def run_suite(repo_root, paths, timeout=1500):
     try:
         for cmd in attempts:
             try:
-                cp = subprocess.run(cmd, cwd=repo_root, env=env, stdout=subprocess.PIPE, stderr=subprocess.STDOUT, timeout=timeout)
+                env2 = dict(env)
+                if cmd[0] != "unshare":
+                    # no private /tmp: at least what the tests create through tempfile lands in a directory that is removed
+                    os.makedirs(os.path.join(work, "tmp"), exist_ok=True)
+                    env2["TMPDIR"] = os.path.join(work, "tmp")
+                cp = subprocess.run(cmd, cwd=repo_root, env=env2, stdout=subprocess.PIPE, stderr=subprocess.STDOUT, timeout=timeout)
             except subprocess.TimeoutExpired:
                 return {"error": "suite timed out after %d s" % timeout}
             except OSError as ex:
